@@ -44,7 +44,7 @@ def register(w):
                    ensures=["not result"],
                    note="inside an archive (self.vfs is a VFSZip) the handler refuses the request before touching anything: "
                         "it needs a path on the real file system, and a member's getfspath() is relative to the archive",
-                   props=P)
+                   props=["C16", "C01"])
     # ---- (d) the archive / member split ---------------------------------------------------------------------
     w.contracts.pop((ZH + "canhandlerequest", "ZIPHandler"), None)
     w.contract(ZH + "canhandlerequest", selfclass=["ZIPHandler"], globals=GROOT,
